@@ -38,9 +38,9 @@ ASSUME = [
 QUICK = dict(cap1=20, rnd1=3, n2=10, cap2=14, rnd2=2, bound=2, procs=8)
 THOROUGH = dict(cap1=2500, rnd1=300, n2=500, cap2=250, rnd2=30, bound=3, procs=8)
 
-NEEDED_ACTIONS = ["NextOp", "SchedCall", "SchedInline", "SchedEnqueue", "SchedAssign", "SchedRet", "DispCall", "CancelPop", "CancelSet",
-                  "DispMarshal", "DispAwait", "DispRet", "CancelDone", "PostDispose", "RunInterval", "Stage2Timer", "Stage2Assign",
-                  "LoopStart", "Poll", "RunOnce", "Pop", "IterEnd", "Enter", "CbEnd", "LoopIdle", "LoopAsleepWithWork", "LoopStop", "Tick",
+NEEDED_ACTIONS = ["NextOp", "SchedCall", "SchedEnqueue", "SchedAssign", "SchedRet", "DispCall", "CancelPop", "CancelSet",
+                  "DispMarshal", "DispAwait", "DispRet", "CancelDone", "PostDispose", "Wake", "RunInterval", "Stage2Timer", "Stage2Assign",
+                  "LoopStart", "Poll", "RunOnce", "Pop", "IterEnd", "Enter", "CbEnd", "LoopIdle", "LoopStop", "Tick",
                   "Finished"]
 
 
@@ -58,9 +58,13 @@ def run(tier: str) -> int:
     try:
         # ---- TLC: scenario family (export) first, then the design checks concurrently with the exploration below
         q = tier == "quick"
-        scs, r1 = ac.export_scenarios(2, "FamExportQuick" if q else "FamExport", ownsets="OwnExport")   # alone: the box is oversubscribed
-        designs = [("design + negative controls: all interleavings, the 1-item scenarios (Variant own) and the fault variants", True,
-                    tp.submit(ac.design_run, 2, "FamOneQuick" if q else "FamOne", ac.VARIANTS_ALL, ("F",), 1, True, ownsets="OwnCaller"))]
+        # run 1 (alone: the box is oversubscribed): the replayer's scenario family + the negative controls
+        scs, r1 = ac.export_and_controls(2, "FamExportQuickC" if q else "FamExportC")
+        ck.note("negative_controls", {"caller": "NoStartAfterDisposeReturned", "early": "NotEarly", "lose": "NoLostAction",
+                                      "nowake": "NoLostAction", "inline": "OnLoopThread",
+                                      "verdict": "each refuted by its invariant (postcondition ControlsRefuted)"})
+        designs = [("design: all interleavings, the 1-item scenarios", True,
+                    tp.submit(ac.design_run, 2, "FamOneQuick" if q else "FamOne", ("own",), ("F",), 3, True))]
         if tier == "quick":
             designs.append(("design: all interleavings, 2 items on the thread-safe scheduler, foreign-thread disposes", False,
                             tp.submit(ac.design_run, 2, "FamTwoQuick", ("own",), ("F",), 2, False)))
@@ -71,12 +75,13 @@ def run(tier: str) -> int:
                             tp.submit(ac.design_run, 2, "FamG", ("own",), ("F", "G"), 3, False, 3000)))
 
         # ---- Binding C+B on the real code
-        ck.add_tlc(r1, "scenario family exported (1 item: all; 2 items: the replayer samples)")
+        ck.add_tlc(r1, "scenario family exported (1 item: all; 2 items: the replayer samples) + negative controls (fault variants refuted)")
         scs1 = [sc for sc in scs if n_items(sc) == 1]
         scs2 = [sc for sc in scs if n_items(sc) == 2]
         rnd = random.Random(ck.seed)
         pick2 = rnd.sample(scs2, min(P["n2"], len(scs2)))
         ck.note("scenario_family_1_item", len(scs1))
+        ck.note("scenario_family_1_item_disposer_inside_another_loop", sum(1 for sc in scs1 if sc.get("own")))
         ck.note("scenario_family_2_items", len(scs2))
         ck.note("scenarios_2_items_sampled", len(pick2))
         jobs = [(sc, P["bound"], P["cap1"], P["rnd1"], ck.seed, "rel", False) for sc in scs1]
@@ -89,7 +94,7 @@ def run(tier: str) -> int:
         # longest first: the scenarios with a foreign thread at work while the loop runs
         jobs.sort(key=lambda j: -sum(1 for it in j[0]["scn"] if "F" in (it["sw"], it["dw"])) * j[2])
         t0 = time.time()
-        tot = ac.conc_check(ck, jobs, pool, "real executions")
+        tot = ac.conc_check(ck, jobs, pool, "real executions", mech_sample=24 if q else None)
         ck.note("exploration_and_validation_wall_s", round(time.time() - t0, 1))
         for k, v in tot.items():
             ck.note("conc_" + k, v)
@@ -108,9 +113,6 @@ def run(tier: str) -> int:
                 if never:
                     raise tlc.TLCFailure(f"vacuous design run: actions never taken {never}")
                 ck.note("design_action_coverage", {a: res.coverage.get(a, 0) for a in NEEDED_ACTIONS})
-                ck.note("negative_controls", {"caller": "NoStartAfterDisposeReturned", "early": "NotEarly", "lose": "NoLostAction",
-                                              "nowake": "NoLostAction", "inline": "OnLoopThread",
-                                              "verdict": "each refuted by its invariant (postcondition ControlsRefuted)"})
     finally:
         pool.terminate()
         tp.shutdown(wait=False, cancel_futures=True)
